@@ -147,7 +147,12 @@ def run_case(case):
         c.transitions += 1
     for comp in comps:
         A = da.from_array(X.copy(), chunks=(comp, (D,)))
-        Td = np.asarray(m.transform(A))
+        L = m.transform(A)
+        # the lazy result must describe itself correctly before it is computed: declared shape, and a row picked from it
+        c.check(tuple(L.shape) == (K, n), "dask_lazy_shape", lambda: f"transform(dask chunks {comp}) declares shape {tuple(L.shape)}, want {(K, n)}", tags)
+        if tuple(L.shape) == (K, n):
+            c.close(np.asarray(L[K - 1]), dist[K - 1], "dask_lazy_shape", f"last centroid's row taken from the lazy transform (dask chunks {comp})", tags, rtol=1e-12, atol=1e-300)
+        Td = np.asarray(L)
         c.close(Td, dist, "dask_distances", f"transform(dask chunks {comp})", tags, rtol=1e-12, atol=1e-300)
         if not tie:
             Pd = np.asarray(m.predict(A))
